@@ -400,6 +400,17 @@ pub fn gen_program(rng: &mut Rng, n: usize, burst: bool) -> Vec<Call> {
                 },
                 None => continue,
             },
+            // equality of two arrays of the same type (ArrayEqual)
+            19 if rng.chance(1, 3) => match find(&types, rng, &|t| matches!(t, Ty::Arr(..))) {
+                Some(a) => {
+                    let ta = types[a].clone().unwrap();
+                    match find(&types, rng, &|t| *t == ta) {
+                        Some(b) => (Call::Bin("equal", a, b), Some(Ty::Bv(1))),
+                        None => continue,
+                    }
+                }
+                None => continue,
+            },
             19 => match find(&types, rng, &|t| *t == Ty::Bv(1)) {
                 Some(a) => match find(&types, rng, &|t| *t == Ty::Bv(1)) {
                     Some(b) => (Call::Bin("implies", a, b), Some(Ty::Bv(1))),
